@@ -496,7 +496,7 @@ theorem replace_core (hc : cfg.Plain c) (hcp : cfg.copy = false) (hdc : cfg.dele
         rw [this, List.isPrefixOf_iff_prefix.2 (List.prefix_refl _)] at h1; cases h1
     simp only [hr, hc.tsep, findFullPath_pathStr t (tpar ++ [d]) hgt', hD, Option.map_some,
       Option.isNone_none, hne, Bool.and_false, Bool.false_eq_true, if_false, hcp, Bool.not_false,
-      Bool.and_true, hdc, parentOf, htpne, List.dropLast_concat, hP, Option.getD_some,
+      Bool.and_true, hdc, parentOf, htpne, List.dropLast_concat, replaceAt, hP, Option.getD_some,
       List.getLast?_concat, hlaterN, hF1, Option.isSome_some, if_true, hin,
       attachOne_ok hP2 hnewkid]
     rw [reappendAll_eq]
